@@ -76,6 +76,10 @@ type Plan struct {
 	// DestroyTag (qtransform only): the transform function answers an input whose value starts with "drop" with an
 	// error tagged qtransform.DestroyOutputTag ("output is not needed anymore"): such an input has no image.
 	DestroyTag bool  `json:"destroytag,omitempty"`
+	// Gate (transform with input finalizers only): ids whose FinalizerRemovalFunc refuses, for the whole run, with an
+	// error tagged transform.SkipReconcileTag ("not yet, retry on the next event"): the controller's finalizer then
+	// stays on such an input once it is torn down - and so does its output (nothing else ever removes outputs here).
+	Gate       []int `json:"gate,omitempty"`
 	Release    bool  `json:"release"`
 	Latency    []int `json:"latency"`
 	Deliv      []int `json:"deliv"`
@@ -126,6 +130,10 @@ func Gen(ctrls []string) func(t *rapid.T) Plan {
 			if hk.KnownOpen("c06-generic-controllers-stale-cached-reads") || hk.KnownOpen("c07-generic-controllers-stale-cached-reads") {
 				p.Cached = nil
 			}
+		}
+
+		if p.Ctrl == "transform-fin" && rapid.IntRange(0, 2).Draw(t, "hasgate") == 0 {
+			p.Gate = rapid.SliceOfNDistinct(rapid.IntRange(0, 2), 1, 2, rapid.ID[int]).Draw(t, "gate")
 		}
 
 		if rapid.IntRange(0, 2).Draw(t, "hasreact") == 0 {
@@ -285,6 +293,17 @@ func Live(p Plan, in *model.Res) bool {
 	return TreatedAsRunning(p, in)
 }
 
+// Gated tells whether the finalizer removal function refuses for the input id (see Plan.Gate).
+func Gated(p Plan, id string) bool {
+	for _, g := range p.Gate {
+		if IDs[g] == id {
+			return true
+		}
+	}
+
+	return false
+}
+
 // TreatedAsRunning tells whether the controller configuration reconciles the input as a running one (it is running, or
 // its teardown is ignored by the controller options).
 func TreatedAsRunning(p Plan, in *model.Res) bool {
@@ -431,7 +450,13 @@ func runBubble(p Plan) *Result {
 		switch p.Ctrl {
 		case "transform-fin":
 			opts = append(opts, transform.WithInputFinalizers())
-			settings.FinalizerRemovalFunc = func(context.Context, controller.Reader, *zap.Logger, *hres.A) error { return nil }
+			settings.FinalizerRemovalFunc = func(_ context.Context, _ controller.Reader, _ *zap.Logger, in *hres.A) error {
+				if Gated(p, in.Metadata().ID()) {
+					return xerrors.NewTaggedf[transform.SkipReconcileTag]("removal of the finalizer on %s is not cleared yet", in.Metadata().ID())
+				}
+
+				return nil
+			}
 		case "transform-ignore":
 			opts = append(opts, transform.WithIgnoreTearingDownInputs())
 		}
